@@ -37,6 +37,25 @@ void *memcpy_model(void *dstv, const void *srcv, unsigned long n)
   if (in) dst[g_j] = keep;
   return dstv;
 }
+/* ---- ASSUMED (C standard): strncpy copies at most n bytes up to and including the first NUL of src and pads the rest of the n bytes with NUL; it does NOT
+   write dst[n].  Not called on the current tree; present so that an edit that replaces the memcpy is verified rather than left undecided.  Same k-witness
+   model: the watched byte becomes NUL when an (arbitrarily chosen) earlier source byte is NUL, otherwise the source byte -- an over-approximation of
+   "some earlier byte is NUL" that never removes a behaviour of the real function ---- */
+char *strncpy_model(char *dst, const char *src, unsigned long n)
+{
+  if (n == 0) return dst;
+  __CPROVER_assert(__CPROVER_w_ok(dst, n), "strncpy: destination range writable");
+  _Bool in = g_j < n; char keep = 0;
+  if (in) {
+    unsigned long z = nondet_ulong();
+    if (z < g_j && src[z] == 0) keep = 0;
+    else { __CPROVER_assert(__CPROVER_r_ok(src + g_j, 1), "strncpy: source byte readable"); keep = src[g_j]; }
+  }
+  unsigned long h = nondet_ulong();
+  if (h < n && h != g_j) dst[h] = nondet_char();
+  if (in) dst[g_j] = keep;
+  return dst;
+}
 '''
 
 EE_CONTRACT = [
@@ -112,7 +131,7 @@ UNIT = dict(
     name='k_tok', tu='tu/rt_message.cpp', no_follow=True,
     pre_structs='struct strview { const char *data; unsigned long size; };   /* string model "view": bytes and length (ASSUMED: data()/size()) */\n',
     emit=dict(
-        calls={'isdigit': 'isdigit_c', 'memcpy': 'memcpy_model',
+        calls={'isdigit': 'isdigit_c', 'memcpy': 'memcpy_model', 'strncpy': 'strncpy_model',
                'extract_element|unsigned int (const char *, const unsigned int, char *, char *)': 'extract_element',
                'std::basic_string<char>::data': 'sv_data', 'std::basic_string<char>::size': 'sv_size'},
         type_map=[(r'(FIX8::f8String|std::basic_string<char>|std::string)', 'struct strview')],
@@ -139,6 +158,6 @@ unsigned long sv_size(const struct strview *s) { return s->size; }
         dict(name='extract_header_calls', harness='h_extract_header', replace=['extract_element'], properties=['C03'],
              solvers=['cadical', 'z3'], timeout=dict(quick=600, thorough=1800), floor=3, object_bits=10, level='proved-modular'),
     ],
-    trusted_base=['ASSUMED: isdigit is the C-locale digit test; memcpy copies n bytes (k-witness model in specs/k_tok.py); std::string data()/size() are the bytes and length of the string'],
+    trusted_base=['ASSUMED: isdigit is the C-locale digit test; memcpy copies n bytes (k-witness model in specs/k_tok.py); strncpy as the C standard describes it (model present for edits only, not called on the current tree); std::string data()/size() are the bytes and length of the string'],
     assumptions=['input size up to 65536 bytes for the tokenisers (the library caps messages at FIX8_MAX_MSG_LENGTH = 8192)'],
 )
